@@ -285,7 +285,7 @@ def run_metric_case(case):
         if any(M[nd, 3] != 0.0 for M in v["poses"]):
             out.append("%s(project_to_plane=%s): stored trajectory %s is not "
                        "in the plane" % (case["tool"], plane, name))
-    err = np.array(r.np_arrays["error_array"])
+    err = np.array(r.np_arrays.get("error_array", []))
     if case["est"] == "eq" and err.size and np.abs(err).max() > 1e-9:
         out.append("%s(project_to_plane=%s) of equal trajectories is not "
                    "zero (max %.3g)" % (case["tool"], plane,
